@@ -213,22 +213,17 @@ func c15ValidFirst(w *World, r *Report) {
 		}
 		r.Fn(FuncName(fn))
 		fg := FullGraph(fn)
-		var vn ssa.CallInstruction
-		for _, c := range callInstrs(fn) {
-			if f, _ := calleeOf(c.Common()); f != nil && FuncName(f) == "pkg/chart/v2/util.validateName" {
-				vn = c
-			}
-		}
-		ok := vn != nil
+		guard := baseNameCheckEdges(fn, 0)
+		ok := len(guard) > 0
 		if ok {
 			for _, c := range callInstrs(fn) {
 				f, _ := calleeOf(c.Common())
-				if f == nil || c == vn {
+				if f == nil {
 					continue
 				}
 				isW, _ := isFSWrite(f)
 				if isW || FuncName(f) == "pkg/chart/v2/util.writeToTar" || FuncName(f) == "pkg/chart/v2/util.writeFile" {
-					if !fg.AfterOK(vn, posOf(c)) {
+					if ex, _ := fg.PathExists(entryPos(fn), posOf(c), Avoid{}.withEdges(guard...)); ex {
 						ok = false
 					}
 				}
@@ -477,4 +472,65 @@ func c15Cleanup(w *World, r *Report) {
 	if n == 0 {
 		r.Unk("C15/CLEANUP", "no-return-after-defer", w.InstrPos(def), "no return after the deferred removal")
 	}
+}
+
+// baseNameCheckEdges: the edges of fn on which a name is known to equal its own filepath.Base (no path
+// components): the direct comparison, or the ok-edges of a call to a helper whose every success return
+// lies behind such a comparison of its parameter.
+func baseNameCheckEdges(fn *ssa.Function, depth int) []Edge {
+	var out []Edge
+	isBaseOf := func(v, of ssa.Value) bool {
+		c, ok := v.(*ssa.Call)
+		if !ok {
+			return false
+		}
+		f, _ := calleeOf(c.Common())
+		if f == nil || fnPkgPath(f) != "path/filepath" || f.Name() != "Base" {
+			return false
+		}
+		return c.Call.Args[0] == of || nf(c.Call.Args[0], 0) == nf(of, 0)
+	}
+	for _, b := range fn.Blocks {
+		for _, in := range b.Instrs {
+			bo, ok := in.(*ssa.BinOp)
+			if !ok || (bo.Op != token.EQL && bo.Op != token.NEQ) {
+				continue
+			}
+			if !(isBaseOf(bo.X, bo.Y) || isBaseOf(bo.Y, bo.X)) {
+				continue
+			}
+			for _, e := range condEdges(bo) {
+				if e.truth == (bo.Op == token.EQL) {
+					out = append(out, e.Edge)
+				}
+			}
+		}
+	}
+	if depth >= 2 {
+		return out
+	}
+	for _, c := range callInstrs(fn) {
+		h, _ := calleeOf(c.Common())
+		if h == nil || !inHelm(h) || len(h.Blocks) == 0 || errResult(c) == nil {
+			continue
+		}
+		he := baseNameCheckEdges(h, depth+1)
+		if len(he) == 0 {
+			continue
+		}
+		hg := FullGraph(h)
+		all := true
+		for _, rp := range hg.classifyReturns() {
+			if rp.Class != RetSuccess {
+				continue
+			}
+			if ex, _ := hg.PathExists(entryPos(h), retPos(rp), Avoid{}.withEdges(he...)); ex {
+				all = false
+			}
+		}
+		if all {
+			out = append(out, okEdgesOfCall(c)...)
+		}
+	}
+	return out
 }
